@@ -18,7 +18,12 @@ Sentences of the property:
    `drop_restores_first_run`;
 4. "If the first run stops at any point before the flow is exhausted … no later run presents the stored prefix
    as if it were the complete flow" — `interrupted_run_keeps_cache_files`, `cache_complete`,
-   `later_run_serves_complete_flow`. -/
+   `later_run_serves_complete_flow`; beyond the statement: `closed_run_leaves_no_tmp` (the temporary file is
+   removed on abort and renamed on exhaustion).
+
+The proofs rest on `Lemmas/C18.lean`: `nextUppers_spec` (one `next` of the generator stack refines the "remaining
+flow" of the reference semantics and keeps the invariant `Track` between a temporary file and the flow that
+enters its cache) and `drive_spec` (its iteration over the consumer's pulls). -/
 
 namespace Lena.C18
 
@@ -369,6 +374,25 @@ example :
     (w1.2.end_, (w1.1.fs 0).final, w2.2.end_, (w2.1.fs 0).final, w3.2.end_, w3.1.fs 0)
       = (.stopped, none, .raised .srcBoom, none, .raised .elBoom, ⟨none, none⟩) := by decide
 
+theorem runOp_fs_exhausted (w : World) (r : RunSpec)
+    (h : (runPipe r.mode w.fs r.src r.els r.demand).end_ = .exhausted) :
+    (runOp w r).1.fs = (runPipe r.mode w.fs r.src r.els r.demand).fs := by
+  unfold runPipe at h ⊢
+  unfold runOp
+  simp only
+  split
+  · rfl
+  · next hne => exact absurd h hne
+
+theorem runOp_fs_closed (w : World) (r : RunSpec) (hleak : r.leak = false)
+    (h : (runPipe r.mode w.fs r.src r.els r.demand).end_ ≠ .exhausted) :
+    (runOp w r).1.fs = (close (runPipe r.mode w.fs r.src r.els r.demand).fs
+      (runPipe r.mode w.fs r.src r.els r.demand).chain).1 := by
+  unfold runPipe at h ⊢
+  unfold runOp
+  simp only [hleak, Bool.false_eq_true, if_false]
+  try (split <;> first | rfl | (rename_i he; exact absurd he h))
+
 /-- **remove on abort, rename on exhaustion**: when the generators of a run are finalised (or the run reached
 its normal end), no temporary file of that run is left — for every cache, the temporary file is gone, or the
 run has not touched the files of that cache at all. -/
@@ -376,60 +400,45 @@ theorem closed_run_leaves_no_tmp (w : World) (r : RunSpec) (wf : r.WF) (hleak : 
     ∀ c, ((runOp w r).1.fs c).tmp = none ∨ (runOp w r).1.fs c = w.fs c := by
   intro c
   have ok := chainOk_build r.mode w.fs r.src r.els wf.2 wf.1
-  have sp := drive_spec r.demand w.fs _ ok
-  obtain ⟨_, _, hframe, hids, _, _, _⟩ := sp
-  by_cases hmem : c ∈ dumpIds (build r.mode w.fs r.src r.els).uppers
-  · left
-    by_cases hend : (runPipe r.mode w.fs r.src r.els r.demand).end_ = .exhausted
-    · -- the cache was filled: its temporary file was renamed
-      have hfs : (runOp w r).1.fs = (runPipe r.mode w.fs r.src r.els r.demand).fs := by
-        unfold runOp; unfold runPipe at hend; simp only; rw [hend]
-      rw [hfs]
+  obtain ⟨_, _, hframe, hids, _, _, _⟩ := drive_spec r.demand w.fs _ ok
+  by_cases hend : (runPipe r.mode w.fs r.src r.els r.demand).end_ = .exhausted
+  · -- normal end: the temporary files of the filled caches were renamed
+    rw [runOp_fs_exhausted w r hend]
+    by_cases hmem : c ∈ dumpIds (build r.mode w.fs r.src r.els).uppers
+    · left
       rw [build_eq' r.mode w.fs r.src r.els wf.2] at hmem
       rcases dumpIds_buildEls w.fs c r.els 0 _ hmem with ⟨h0, _⟩ | ⟨pre, rc, post, e, hx, hpost⟩
       · simp [dumpIds] at h0
       · have hd := wf.1; have hm := wf.2
         rw [e] at hd hm hend ⊢
         rw [(first_run_stores r.mode w.fs r.src pre post c rc r.demand hm hd hx hpost hend).1]
-    · -- the generators were closed
-      have hfs : (runOp w r).1.fs = (close (runPipe r.mode w.fs r.src r.els r.demand).fs
-          (runPipe r.mode w.fs r.src r.els r.demand).chain).1 := by
-        unfold runOp; unfold runPipe at hend ⊢; simp only [hleak]
-        split
-        · next h => exact absurd h hend
-        · simp
-      rw [hfs]
-      unfold runPipe
-      cases hk : r.demand with
+    · right
+      exact hframe c hmem
+  · -- interrupted: the generators were closed
+    rw [runOp_fs_closed w r hleak hend]
+    unfold runPipe
+    simp only [close]
+    by_cases hmem : c ∈ dumpIds (build r.mode w.fs r.src r.els).uppers
+    · cases hk : r.demand with
       | zero =>
-        -- nothing was started: impossible to be among the started generators … but also nothing to remove
-        simp only [drive, close]
+        -- no generator was started, nothing is removed
+        right
+        simp only [drive]
         rw [closeUppers_noActive _ _ (by
           rw [build_eq' r.mode w.fs r.src r.els wf.2]
           exact buildEls_noActive w.fs r.els 0 _ trivial)]
-        -- the chain was never started: the file is as before; show it by contradiction-free reasoning
-        exact absurd rfl (by
-          intro _
-          exact hend (by
-            -- with demand 0 the run is `stopped`, so `hend` cannot be used to derive falsity: handled below
-            exact absurd rfl (fun _ => by trivial)))
       | succ k =>
-        have st := drive_settled k w.fs _ ok
-        simp only [close]
-        apply closeUppers_settled _ _ st
-        · rw [hk] at hids; rw [hids]; exact UsOk.nodup _ ok.1
-        · rw [hk] at hids; rw [hids]; exact hmem
-  · right
-    have hfr := hframe c hmem
-    unfold runOp
-    simp only
-    split
-    · exact hfr
-    · split
-      · exact hfr
-      · simp only [close]
-        rw [(closeUppers_spec _ _).2 c (by rw [hids]; exact hmem)]
-        exact hfr
+        left
+        rw [hk] at hids
+        exact closeUppers_settled _ _ (drive_settled k w.fs _ ok) (by rw [hids]; exact UsOk.nodup _ ok.1) c
+          (by rw [hids]; exact hmem)
+    · right
+      rw [(closeUppers_spec _ _).2 c (by rw [hids]; exact hmem)]
+      exact hframe c hmem
+
+example :
+    let w := (runOp World.init ⟨.source, ⟨[1, 2, 3], none⟩, [.cache 0 false, .map 1 (some 1), .cache 1 false], 9, false⟩)
+    (w.2.end_, w.1.fs 0, w.1.fs 1) = (.raised .elBoom, ⟨none, none⟩, ⟨none, none⟩) := by decide
 
 /-- cache `c` was stored by the run `r` started on the file system `fs`: `c` is an unfilled (or `recompute`)
 cache of the pipeline with no replayed cache after it, the run reached its normal end, and `xs` is the
